@@ -51,6 +51,12 @@ type C10Case struct {
 	StoreFails  bool      `json:"store_fails,omitempty"`
 	ClockMs     int64     `json:"clock_ms"` // simulated time before the request
 	ChunkSeeds  []uint64  `json:"chunk_seeds"` // one delivery of the same body per seed (0 = whole body at once, 1 = byte by byte)
+	// concurrent phase: Par requests (the same lines, each document marked with its request number)
+	// sent at once to one handler/ingestor, optionally after a request whose store call failed
+	Par          int     `json:"par,omitempty"`
+	ParFailFirst bool    `json:"par_fail_first,omitempty"`
+	PSync        float64 `json:"p_sync,omitempty"`
+	Schedule     []int   `json:"schedule,omitempty"`
 }
 
 type storedDoc struct {
@@ -70,6 +76,8 @@ type captureClient struct {
 	calls int
 	docs  []storedDoc
 	err   string
+	// per call: the documents of that call (concurrent phase)
+	perCall [][]storedDoc
 }
 
 func (c *captureClient) StoreDocuments(_ context.Context, count int, docs, metas []byte) error {
@@ -111,13 +119,16 @@ func (c *captureClient) StoreDocuments(_ context.Context, count int, docs, metas
 	if len(bodies) != count || len(mids) != count {
 		c.err = fmt.Sprintf("count=%d but payload holds %d documents and %d metas", count, len(bodies), len(mids))
 	}
+	var call []storedDoc
 	for i := range bodies {
 		d := storedDoc{body: bodies[i]}
 		if i < len(mids) {
 			d.mid = mids[i]
 		}
 		c.docs = append(c.docs, d)
+		call = append(call, d)
 	}
+	c.perCall = append(c.perCall, call)
 	return nil
 }
 
@@ -129,9 +140,13 @@ type chunkReader struct {
 	mode   uint64
 	errAt  int
 	closed bool
+	yield  bool // concurrent phase: every Read is a scheduling point
 }
 
 func (r *chunkReader) Read(p []byte) (int, error) {
+	if r.yield {
+		verifsim.Yield(0)
+	}
 	if r.errAt > 0 && r.pos >= r.errAt {
 		return 0, errors.New("stub: connection reset by peer")
 	}
@@ -169,6 +184,19 @@ func formatTime(t time.Time, f string) string {
 }
 
 // body renders the request body for a request time.
+// marked returns the case with every document line carrying the request number, so that the
+// documents of concurrent requests are pairwise different.
+func (c *C10Case) marked(i int) *C10Case {
+	cp := *c
+	cp.Lines = append([]C10Line(nil), c.Lines...)
+	for j := range cp.Lines {
+		if l := &cp.Lines[j]; l.Kind == "doc" && strings.HasPrefix(l.Text, "{") {
+			l.Text = fmt.Sprintf(`{"rq":%d,`, i) + l.Text[1:]
+		}
+	}
+	return &cp
+}
+
 func (c *C10Case) body(now time.Time) []byte {
 	var b bytes.Buffer
 	for i, l := range c.Lines {
@@ -311,7 +339,7 @@ func RunC10(t *testing.T, c *C10Case) *RunResult {
 		log = append(log, "VIOLATION "+clause+": "+d)
 	}
 	simrandv2.Seed(c.Seed ^ 0x10)
-	s := verifsim.RunBubble(t, verifsim.Config{Seed: c.Seed, PSync: 0, MaxSteps: 200000, IdleLimit: 100000 * time.Hour}, func(s *verifsim.Sim) {
+	s := verifsim.RunBubble(t, verifsim.Config{Seed: c.Seed, PSync: c.PSync, Schedule: c.Schedule, MaxSteps: 400000, IdleLimit: 100000 * time.Hour}, func(s *verifsim.Sim) {
 		s.SleepSim(time.Duration(c.ClockMs) * time.Millisecond)
 		mp, err := mappingprovider.New("", mappingprovider.WithMapping(c10Mapping))
 		if err != nil {
@@ -419,10 +447,14 @@ func RunC10(t *testing.T, c *C10Case) *RunResult {
 				}
 			}
 		}
+		if c.Par > 1 && len(res.Violations) == 0 {
+			runC10Par(s, c, mp, violate, &log, res)
+		}
 	})
 	res.Steps, res.Switches = s.Steps(), s.Switches()
+	res.Schedule = s.RecordedSchedule()
 	// what distinguishes one case from another here is the shape of the body and how it was cut
-	shape := fmt.Sprintf("%v|%d|%d|%v|%d|%v", c.NoFinalNL, c.TruncateAt, c.ErrorAt, c.Gzip, c.MaxDocSize, c.StoreFails)
+	shape := fmt.Sprintf("%v|%d|%d|%v|%d|%v|%d|%v|%d", c.NoFinalNL, c.TruncateAt, c.ErrorAt, c.Gzip, c.MaxDocSize, c.StoreFails, c.Par, c.ParFailFirst, s.InterleavingHash())
 	for _, l := range c.Lines {
 		shape += fmt.Sprintf("|%s:%d:%v:%s:%d", l.Kind, len(l.Text), l.CRLF, l.TimeFormat, l.OffsetMs)
 	}
@@ -439,6 +471,137 @@ func RunC10(t *testing.T, c *C10Case) *RunResult {
 		res.Outcome = "ok"
 	}
 	return res
+}
+
+// runC10Par: the concurrent phase. One handler and ingestor serve Par requests at once; every
+// request must get exactly the outcome the reference gives for its own body, and every call to the
+// storage must carry the documents of exactly one request.
+func runC10Par(s *verifsim.Sim, c *C10Case, mp bulk.MappingProvider, violate func(string, string, ...any), log *[]string, res *RunResult) {
+	client := &captureClient{}
+	ing := bulk.NewIngestor(bulk.IngestorConfig{
+		MaxInflightBulks: 4, AllowedTimeDrift: time.Duration(c.DriftMs) * time.Millisecond, FutureAllowedTimeDrift: time.Duration(c.FutureMs) * time.Millisecond,
+		MappingProvider: mp, MaxTokenSize: 72, DocsZSTDCompressLevel: 1, MetasZSTDCompressLevel: 1, MaxDocumentSize: c.MaxDocSize,
+	}, client)
+	defer ing.Stop()
+	h := proxyapi.NewBulkHandler(ing, c.MaxDocSize)
+	now := time.Now() // the fake clock does not move while requests only compute
+	send := func(i int, mode uint64, yield bool) (int, int, []storedDoc, bool, bool) {
+		cc := c.marked(i)
+		body := cc.body(now)
+		rd := &chunkReader{data: body, rng: verifsim.NewSplitMix(c.Seed ^ uint64(i+1)*0x9e37), mode: mode, errAt: c.ErrorAt, yield: yield}
+		req := httptest.NewRequest(http.MethodPost, "/_bulk", rd)
+		rec := httptest.NewRecorder()
+		h.ServeHTTP(rec, req)
+		items := 0
+		if rec.Code == 200 {
+			var resp struct {
+				Items []json.RawMessage `json:"items"`
+			}
+			if err := json.Unmarshal(rec.Body.Bytes(), &resp); err != nil {
+				violate("response", "concurrent request %d: 200 response is not valid JSON: %q", i, rec.Body.String())
+			}
+			items = len(resp.Items)
+		}
+		want, ok, ambiguous := cc.reference(body, now)
+		return rec.Code, items, want, ok, ambiguous
+	}
+	if c.ParFailFirst {
+		client.fail = true
+		code, _, want, ok, amb := send(100, 0, false)
+		client.fail = false
+		res.Fired["par_store_failure"]++
+		*log = append(*log, fmt.Sprintf("concurrent phase: request with failing storage -> status %d", code))
+		if !amb && ok && len(want) > 0 && code == 200 {
+			violate("ack_without_store", "storage failed but the request was answered 200")
+			return
+		}
+	}
+	type out struct {
+		code, items int
+		want        []storedDoc
+		ok, amb     bool
+	}
+	outs := make([]*out, c.Par)
+	var tasks []*verifsim.Task
+	for i := 0; i < c.Par; i++ {
+		i := i
+		mode := []uint64{0, 1, 7, 13}[i%4]
+		tasks = append(tasks, s.GoOn(nil, func() {
+			o := &out{}
+			o.code, o.items, o.want, o.ok, o.amb = send(i, mode, true)
+			outs[i] = o
+		}))
+	}
+	for _, t := range tasks {
+		if r := s.WaitTask(t, nil, 6*time.Hour); r != "done" {
+			violate("hang", "a concurrent bulk request did not finish: %s", r)
+			return
+		}
+	}
+	res.Fired["par_requests"] += c.Par
+	if client.err != "" {
+		violate("payload", "concurrent phase: %s", client.err)
+		return
+	}
+	// attribute storage calls to requests by the marker
+	stored := map[int][][]storedDoc{}
+	for ci, call := range client.perCall {
+		owner := -2
+		for _, d := range call {
+			var m struct {
+				Rq *int `json:"rq"`
+			}
+			rq := -1
+			if json.Unmarshal([]byte(d.body), &m) == nil && m.Rq != nil {
+				rq = *m.Rq
+			}
+			if owner == -2 {
+				owner = rq
+			} else if owner != rq {
+				violate("mixed_requests", "storage call %d carries documents of requests %d and %d: %q", ci, owner, rq, clipS(d.body))
+				return
+			}
+		}
+		stored[owner] = append(stored[owner], call)
+	}
+	for i, o := range outs {
+		if o == nil {
+			violate("hang", "concurrent request %d has no outcome", i)
+			return
+		}
+		*log = append(*log, fmt.Sprintf("concurrent request %d: status=%d items=%d storage calls=%d", i, o.code, o.items, len(stored[i])))
+		got := []storedDoc{}
+		for _, call := range stored[i] {
+			got = append(got, call...)
+		}
+		switch {
+		case o.amb:
+		case !o.ok:
+			if o.code == 200 || len(got) > 0 {
+				violate("accepted_bad_request", "concurrent request %d must be rejected and store nothing, got status %d with %d documents handed to storage", i, o.code, len(got))
+				return
+			}
+		default:
+			if o.code != 200 {
+				violate("rejected_good_request", "concurrent request %d: status %d for a body whose %d document lines are all acceptable", i, o.code, len(o.want))
+				return
+			}
+			if o.items != len(o.want) || len(got) != len(o.want) || (len(o.want) > 0 && len(stored[i]) != 1) {
+				violate("count", "concurrent request %d: %d valid object documents in its body, response lists %d items, %d documents handed to storage in %d calls", i, len(o.want), o.items, len(got), len(stored[i]))
+				return
+			}
+			for j := range o.want {
+				if got[j].body != o.want[j].body {
+					violate("not_verbatim", "concurrent request %d: document %d stored as %q, sent as %q", i, j, clipS(got[j].body), clipS(o.want[j].body))
+					return
+				}
+				if got[j].mid != o.want[j].mid {
+					violate("time_rule", "concurrent request %d: document %d got id time %d, rule says %d", i, j, got[j].mid, o.want[j].mid)
+					return
+				}
+			}
+		}
+	}
 }
 
 func clipS(s string) string {
@@ -512,5 +675,10 @@ func GenC10(seed uint64, thorough bool, maxDoc int) *C10Case {
 		c.ErrorAt = r.Range(1, 300)
 	}
 	c.ChunkSeeds = []uint64{0, 1, 2 + r.Uint64()%1000, 2 + r.Uint64()%1000}
+	if r.Bool(0.3) {
+		c.Par = r.Range(2, 4)
+		c.ParFailFirst = r.Bool(0.5)
+		c.PSync = []float64{0.1, 0.3, 0.6}[r.Intn(3)]
+	}
 	return c
 }
